@@ -86,6 +86,7 @@ def displayOf (ty : String) (v : DV) : Option (Out Bytes) :=
   | "ts", .ts t => some (displayTimestamp t)
   | "tstz", .tstz t => some (displayTimestampTz t)
   | "iv", .interval a b c => some (.ok (displayInterval a b c))
+  | "f64", .f64 b => (displayF64? b).map .ok
   | _, _ => none
 
 def mapOut {α β} (f : α → β) : Out α → Out β
@@ -104,12 +105,8 @@ def parseOf (ty : String) (t : Bytes) : Option (Out DV) :=
   | "blob" => some (mapOut DV.blob (parseBlobText t))
   | "date" => some (mapOut DV.date (parseDate t))
   | "ts" => (parseTimestamp t).map (mapOut DV.ts)
-  | "tstz" =>
-    -- Display's ` +00:00` suffix (the only system offset); without suffix: same as timestamp
-    let suf : Bytes := [32, 43, 48, 48, 58, 48, 48]
-    if t.length ≥ 7 ∧ t.drop (t.length - 7) = suf then
-      (parseTimestamp (t.take (t.length - 7))).map (mapOut DV.tstz)
-    else none
+  | "tstz" => (parseTimestampTz t).map (mapOut DV.tstz)
+  | "f64" => (parseF64? t).map (mapOut DV.f64)
   | "iv" => some (mapOut (fun p => DV.interval p.1 p.2.1 p.2.2) (parseInterval t))
   | _ => none
 
